@@ -234,6 +234,42 @@ func runC13(c *Ctx) {
 				shutdownWithin(ls.srv, 0, 3*time.Second)
 			}
 		}
+		// --- S2b: a rejected second start leaves the running server intact: an idle TCP connection opened before it is
+		//          still unblocked and closed by Shutdown
+		{
+			p := &srvProbe{}
+			if ls, err := startServer("tcp", p); err == nil {
+				ls.srv.ReadTimeout = time.Hour
+				ls.srv.IdleTimeout = func() time.Duration { return time.Hour }
+				client, derr := net.Dial("tcp", ls.addr)
+				if derr == nil {
+					// one exchange makes sure the connection has been accepted and is being served
+					co := &dns.Conn{Conn: client}
+					q := new(dns.Msg)
+					q.SetQuestion("idle.example.", dns.TypeA)
+					co.SetDeadline(time.Now().Add(2 * time.Second))
+					co.WriteMsg(q)
+					co.ReadMsg()
+					e2 := make(chan error, 1)
+					go func() { e2 <- ls.srv.ActivateAndServe() }()
+					var second error
+					select {
+					case second = <-e2:
+					case <-time.After(2 * time.Second):
+					}
+					c.Pred("lifecycle", "double-start-errors", "tcp with an idle connection", second != nil, fmt.Sprint(second), "error", true)
+					res, took := shutdownWithin(ls.srv, 0, 4*time.Second)
+					c.Pred("lifecycle", "shutdown-after-rejected-start", "tcp with an idle connection", res == "nil" && took < 3*time.Second,
+						fmt.Sprint(res, " after ", took), "nil, promptly", true)
+					client.SetReadDeadline(time.Now().Add(2 * time.Second))
+					_, rerr := client.Read(make([]byte, 1))
+					c.Pred("lifecycle", "idle-conn-closed-after-shutdown", "tcp with an idle connection", rerr == io.EOF, fmt.Sprint(rerr), "EOF", true)
+					client.Close()
+				} else {
+					shutdownWithin(ls.srv, 0, 3*time.Second)
+				}
+			}
+		}
 		// --- S3: shutdown of a server that was never started
 		{
 			srv := &dns.Server{Addr: "127.0.0.1:0", Net: "udp"}
